@@ -836,6 +836,11 @@ def run(p, report, tier):
                 "store of a stream strategy stores such an object (a shared manager is aged and charged by all its holders, "
                 "which lifts each holder's spend above its budget)", floor=8)
     check_manager_private(p, report, "R4.9")
+    report.rule("R4.11", "a stream strategy shows a chunk to its budget manager in ONE query_by_utility call (whose per-instance "
+                "simulation carries the spent estimate from one instance to the next): a query_by_utility call inside the "
+                "strategy's own loop over the candidates judges every instance of the chunk against the same committed state, so "
+                "a chunk can be granted far more labels than the bound allows (40 of 50 at budget 0.1)", floor=2)
+    check_one_consultation_per_chunk(p, report, "R4.11")
     report.rule("R4.10", "the label account is kept in full-width numbers: no array or scalar in the stream strategies and budget "
                 "managers is created with / cast to a bounded-width dtype (uint8, int8/16, float16/32): an indicator of that "
                 "type added to a counter turns the counter into it, and the count of granted labels wraps (255 + 1 = 0) or "
@@ -893,3 +898,23 @@ def check_no_narrow_dtype(p, report, rule, scope):
                        bad is None, nontrivial=False, detail=f"{n} creation / cast site(s)" if bad is None else
                        f"`{ast.unparse(bad)[:70]}` has a bounded-width dtype: whatever is accumulated from it inherits that width "
                        f"(numpy keeps the array's dtype when a python number is added) and overflows / saturates silently")
+
+
+def check_one_consultation_per_chunk(p, report, rule):
+    n = 0
+    for f in sorted(p.all_functions(), key=lambda f: f.qual):
+        if "/tests/" in f.file or not f.file.startswith("skactiveml/stream/") or "/budgetmanager/" in f.file \
+                or f.name != "query" or f.cls is None:
+            continue
+        tree = FuncTree(f.node)
+        calls = [c for c in ast.walk(f.node) if isinstance(c, ast.Call) and isinstance(c.func, ast.Attribute)
+                 and c.func.attr == "query_by_utility"]
+        for c in calls:
+            n += 1
+            loops = [o for (_s, o, _f, _i) in tree.ancestors(tree.stmt_of(c)) if isinstance(o, (ast.For, ast.While))]
+            report.add(rule, f.qual, f"`{norm_stmt(tree.stmt_of(c), 60)}` sees the whole chunk", f"{f.file}:{c.lineno}", not loops,
+                       detail="one call per query" if not loops else
+                       f"called once per iteration of `{norm_stmt(loops[0], 50)}` while nothing commits the grants in between: each "
+                       f"instance is decided with the spent-budget estimate (and the random draw) from before the chunk")
+    if n == 0:
+        raise AnalysisError("no query_by_utility consultation found in the stream strategies")
